@@ -27,6 +27,7 @@ type step struct {
 	Lane  string   `json:"lane"`
 	Name  string   `json:"name,omitempty"`
 	Class string   `json:"class,omitempty"`
+	Force bool     `json:"force,omitempty"` // hand-written step: not subject to the safety filter
 	args  []string
 }
 
@@ -250,6 +251,8 @@ type exclusions struct {
 	nonFinite     bool
 	evalNonFinite bool
 	oddKeys       bool
+	errTop        bool
+	bigNum        bool
 }
 
 func (r *runner) label(s string) { r.labels[s]++ }
@@ -283,6 +286,14 @@ func malformedKey(name, raw string) string {
 	if reBareNonFinite.MatchString(raw) {
 		if strings.HasPrefix(name, "eval") {
 			return idEvalNonFinite
+		}
+		switch name {
+		case "nearby", "within", "intersects", "test":
+			// stored coordinates are refused since json-nonfinite-coordinates
+			// was repaired: what is left is a non-finite search area
+			if !exclNonFinite {
+				return idSearchNonFinite
+			}
 		}
 		return idNonFiniteCoords
 	}
@@ -345,6 +356,12 @@ func (r *runner) check(iR, iJ int, what, name string, args []string, v t38.Value
 		r.tnt.aof = true
 	}
 	outcome, diff := agree(args, v, rep, &r.tnt)
+	if strings.HasPrefix(diff, "{{") {
+		// a disagreement that belongs to a named finding
+		if i := strings.Index(diff, "}}"); i > 0 {
+			r.fail(diff[2:i], fmt.Sprintf("%s: %s: %s\n  RESP: %s\n  JSON: %s", what, t38.CmdString(args), diff[i+2:], v, rep.Raw))
+		}
+	}
 	if diff != "" {
 		r.fail("disagree:"+name, fmt.Sprintf("%s: %s: %s\n  RESP: %s\n  JSON: %s", what, t38.CmdString(args), diff, v, rep.Raw))
 	}
@@ -374,7 +391,7 @@ func (r *runner) exec(i int, st *step) {
 		return
 	}
 	name, _, in := cmdName(args)
-	if why := unsafeReason(args); why != "" {
+	if why := unsafeReason(args); why != "" && !st.Force {
 		r.label("skipped:" + why)
 		return
 	}
